@@ -9,6 +9,11 @@ pub mod c06;
 pub mod c07;
 pub mod c08;
 pub mod c09;
+pub mod c10;
+pub mod c11;
+pub mod c13;
+pub mod c15;
+pub mod c16;
 
 pub fn run<C: Suite>(ctx: &mut Ctx) {
     match ctx.prop.clone().as_str() {
@@ -20,6 +25,11 @@ pub fn run<C: Suite>(ctx: &mut Ctx) {
         "C07" => c07::run::<C>(ctx),
         "C08" => c08::run::<C>(ctx),
         "C09" => c09::run::<C>(ctx),
+        "C10" => c10::run::<C>(ctx),
+        "C11" => c11::run::<C>(ctx),
+        "C13" => c13::run::<C>(ctx),
+        "C15" => c15::run::<C>(ctx),
+        "C16" => c16::run::<C>(ctx),
         p => panic!("unknown property {p}"),
     }
 }
